@@ -3,6 +3,7 @@ package props
 import (
 	"fmt"
 	"math"
+	"sort"
 	"strings"
 	"time"
 
@@ -308,8 +309,16 @@ func c12DateStr(d gedcom.Date) string { return d.String() }
 func c12Dates(c *fw.Ctx, k int) {
 	r := c.R
 	grid := c12DateGrid(r)
-	maxYearsList := []float64{gedcom.DefaultMaxYearsForSimilarity, 1, 0.5, 10, 50, r.Float()*49 + 0.01}
+	maxYearsList := []float64{gedcom.DefaultMaxYearsForSimilarity, 1, 0.5, 10, 50, r.Float()*49 + 0.01, 1.5, 2.5, 0.25}
 	mk := func(d gedcom.Date) gedcom.DateRange { return gedcom.NewDateRange(d, d) }
+	// every (distance, score) seen in this case, by MaxYears: the score is a
+	// function of the distance alone and never goes up with it - also between
+	// pairs that have no date in common
+	type c12Obs struct {
+		d, s float64
+		what string
+	}
+	obs := map[float64][]c12Obs{}
 	// choose a slice of left operands for this case so that the whole grid is covered over cases
 	for x := k % 7; x < len(grid); x += 7 {
 		for y := 0; y < len(grid); y++ {
@@ -327,6 +336,7 @@ func c12Dates(c *fw.Ctx, k int) {
 				c.Violation("symmetry:DateRange.Similarity", fmt.Sprintf("(%s).Similarity(%s,%v)=%.12f swapped %.12f", a, b, my, ab, ba), pl)
 			}
 			dist := math.Abs(ra.Years() - rb.Years())
+			obs[my] = append(obs[my], c12Obs{dist, ab, a.String() + " vs " + b.String()})
 			if dist > my+1e-9 && ab != 0 {
 				c.Violation("zero-beyond-max:DateRange.Similarity", fmt.Sprintf("(%s) vs (%s): %.6f years apart > MaxYears %v but similarity %v", a, b, dist, my, ab), pl)
 			}
@@ -363,6 +373,20 @@ func c12Dates(c *fw.Ctx, k int) {
 		c.Count("translation-pairs", 1)
 		if math.Abs(s1-s2) > c12Tol {
 			c.Violation("distance-only:DateRange.Similarity", fmt.Sprintf("years %d/%d score %v but %d/%d (same distance) score %v (MaxYears %v)", y1, y2, s1, y1+sh, y2+sh, s2, my), nil)
+		}
+	}
+	for my, os := range obs {
+		sort.Slice(os, func(i, j int) bool { return os[i].d < os[j].d })
+		lowest := os[0] // the lowest score among the pairs that are closer together
+		for _, o := range os {
+			c.Count("date-score-vs-distance-checks", 1)
+			if o.s > lowest.s+c12Tol && o.d > lowest.d {
+				c.Violation("distance-only:DateRange.Similarity", fmt.Sprintf("with MaxYears %v, %s (%.6f years apart) score %v, but %s (%.6f years apart, closer together) score %v", my, o.what, o.d, o.s, lowest.what, lowest.d, lowest.s), map[string]interface{}{"max_years": my, "closer": lowest.what, "further": o.what})
+				break
+			}
+			if o.s < lowest.s {
+				lowest = o
+			}
 		}
 	}
 	// missing operand
